@@ -3,7 +3,7 @@
 cd /verif
 for p in "$@"; do
   for v in A B; do
-    if [ -f /tmp/seed/$p/patch$v.diff ] && [ -f /tmp/seed/$p/demo$v.py ]; then
+    if [ -f /tmp/seed$SEED_ROUND/$p/patch$v.diff ] && [ -f /tmp/seed$SEED_ROUND/$p/demo$v.py ]; then
       python3 tools/seedeval.py $p $v 2>&1 | tail -3
     fi
   done
